@@ -5,7 +5,7 @@ import random
 
 from .. import tlc
 from ..common import Check, load_known
-from ..engine_lib import INF, Program, random_program, run_program, to_trace
+from ..engine_lib import INF, Program, add_crashes, random_program, run_program, to_trace
 from ..probe import quiet_logging
 
 SPEC = tlc.SPECS / "engine"
@@ -88,8 +88,8 @@ def run(tier, seed, replay=None):
                                             inject=random.Random(inject) if inject is not None else None)
         tid = len(traces) + 1
         end_ns = None if prog.end_t == INF else prog.end_t * step_ns
-        traces.append(to_trace(tid, probe.log, end_ns))
-        meta[tid] = dict(origin=origin, form=form, control=control, step_ns=step_ns, end_t=prog.end_t,
+        traces.append(to_trace(tid, probe.log, end_ns, probe.targets, prog.crashes, step_ns))
+        meta[tid] = dict(crashes=prog.crashes, origin=origin, form=form, control=control, step_ns=step_ns, end_t=prog.end_t,
                          events=prog.events, delivered=labels, early=early, prior=prior, inject=inject)
         chk.impl_steps += len(labels)
         if err:
@@ -123,12 +123,14 @@ def run(tier, seed, replay=None):
     for k in range(n_rand):
         p = random_program(rng, burst=(k % 3 == 0), max_total=12 + (k % 5) * 10)
         form, control = VARIANTS[k % len(VARIANTS)]
+        if k % 6 == 4:        # injected crash/restart windows on some targets (ticks of 1 us or 1 s only)
+            add_crashes(p, rng)
         # every 4th program: some pre-run events are created before Simulation() exists, after
         # unrelated earlier activity in the interpreter (sort indices must still follow creation)
         early = rng.randint(1, 4) if k % 4 == 1 else 0
         # every 5th program is driven through pause/step and gets events scheduled while paused
         inject = rng.randint(1, 10**9) if k % 5 == 2 else None
-        execute(p, form, control, "random", step_ns=(1, 1000, 10**9)[k % 3],
+        execute(p, form, control, "random", step_ns=(1, 1000, 10**9)[k % 3] if not p.crashes else (1000, 10**9)[k % 2],
                 shuffle=rng if k % 2 else None, early=early, prior=rng.randint(0, 7) if early else 0,
                 inject=inject)
 
@@ -191,13 +193,13 @@ def do_replay(chk, path):
     """Re-execute a saved case on the real engine and judge it again with EngineTrace.tla."""
     import json
     m = json.loads(open(path).read())["replay"]["meta"]
-    prog = Program(m["events"], m["end_t"])
+    prog = Program(m["events"], m["end_t"], crashes=[tuple(c) for c in m.get("crashes", [])])
     inj = m.get("inject")
     labels, probe, w, err = run_program(prog, form=m["form"], control=m["control"], step_ns=m["step_ns"],
                                         early=m.get("early", 0), prior=m.get("prior", 0),
                                         inject=random.Random(inj) if inj is not None else None)
     end_ns = None if prog.end_t == INF else prog.end_t * m["step_ns"]
-    tr = to_trace(1, probe.log, end_ns)
+    tr = to_trace(1, probe.log, end_ns, probe.targets, prog.crashes, m["step_ns"])
     verdicts, results = tlc.validate_traces(SPEC / "EngineTrace.tla", [tr], label="C01_replay")
     for r in results:
         chk.add_tlc("EngineTrace replay", r)
